@@ -92,6 +92,50 @@ theorem text_eq_plain {q : QName} {name : Str} (hq : nameOk q.loc = true) (hn : 
       simp [nameOk, ← he] at hn
     · intro ⟨h', _⟩; exact absurd h' h
 
+theorem append_cons_inj {α : Type} (c : α) : ∀ (a a' b b' : List α), c ∉ a → c ∉ a' →
+    a ++ c :: b = a' ++ c :: b' → a = a' ∧ b = b' := by
+  intro a
+  induction a with
+  | nil =>
+    intro a' b b' _ ha' h
+    cases a' with
+    | nil => simpa using h
+    | cons x xs =>
+      simp at h
+      exact absurd (h.1 ▸ List.mem_cons_self) ha'
+  | cons x xs ih =>
+    intro a' b b' ha ha' h
+    cases a' with
+    | nil =>
+      simp at h
+      exact absurd (h.1 ▸ List.mem_cons_self) ha
+    | cons y ys =>
+      simp at h
+      have := ih ys b b' (fun hm => ha (List.mem_cons_of_mem _ hm)) (fun hm => ha' (List.mem_cons_of_mem _ hm)) h.2
+      exact ⟨by rw [h.1, this.1], this.2⟩
+
+def qnOk (q : QName) : Prop := nameOk q.loc = true ∧ '}' ∉ q.ns
+
+theorem text_inj {q r : QName} (hq : qnOk q) (hr : qnOk r) : q.text = r.text ↔ q = r := by
+  constructor
+  · intro h
+    obtain ⟨qn, ql⟩ := q
+    obtain ⟨rn, rl⟩ := r
+    simp only [QName.text] at h
+    by_cases h1 : qn.isEmpty = true <;> by_cases h2 : rn.isEmpty = true
+    · simp only [h1, h2, if_true] at h
+      simp [List.isEmpty_iff] at h1 h2
+      simp [h1, h2, h]
+    · simp only [h1, h2, if_true] at h
+      have := hq.1; simp [nameOk, h] at this
+    · simp only [h1, h2, if_true] at h
+      have := hr.1; simp [nameOk, ← h] at this
+    · simp only [h1, h2] at h
+      simp at h
+      have := append_cons_inj '}' qn rn ql rl hq.2 hr.2 h
+      simp [this.1, this.2]
+  · intro h; rw [h]
+
 theorem filter_none_of_nodup {q : QName} {r : AttrList} (h : q ∉ r.map Prod.fst) (name : Str)
     (hq : q.ns.isEmpty = true ∧ q.loc = name) :
     r.filter (fun a => a.1.ns.isEmpty && a.1.loc == name) = [] := by
